@@ -154,7 +154,12 @@ func judgeHinted(entry string, ek entryKind, d deploy, query []byte, reply []byt
 		return "ok"
 	}
 	if reply == nil {
-		// Silence towards a query is C11's business, not C06's.
+		// A listener owes NOTIMP to a foreign opcode and FORMERR to a bad
+		// QDCOUNT or an undecodable body: silence is not among the verdicts.
+		if ek.listener && (v.opcode() != dns.OpcodeQuery || v.qd != 1 || !v.decodable) {
+			return fail(e+"/verdict/rejectable-packet-unanswered", fmt.Sprintf("opcode=%d qd=%d decodable=%v", v.opcode(), v.qd, v.decodable))
+		}
+		// Silence towards a well-formed query is C11's business, not C06's.
 		return "-"
 	}
 	if len(reply) < 12 {
@@ -188,8 +193,12 @@ func judgeHinted(entry string, ek entryKind, d deploy, query []byte, reply []byt
 	if ek.listener {
 		badOpcode := v.opcode() != dns.OpcodeQuery
 		mustFormErr := v.qd != 1 || !v.decodable
+		// "bad section counts": also what the decoder made of a lenient parse,
+		// and counts no query has. Either verdict is right when a foreign
+		// opcode meets such a packet.
+		oddCounts := mustFormErr || len(v.msg.Question) != 1 || v.an > 1 || v.ns > 1 || v.ar > 2
 		switch {
-		case badOpcode && mustFormErr:
+		case badOpcode && oddCounts:
 			if rcodeLow != dns.RcodeNotImplemented && rcodeLow != dns.RcodeFormatError {
 				return fail(e+"/verdict/opcode+counts", fmt.Sprintf("rcode=%d", rcodeLow))
 			}
@@ -236,6 +245,10 @@ func judgeHinted(entry string, ek entryKind, d deploy, query []byte, reply []byt
 		}
 	}
 	if ropt != nil && !v.hasOPT {
+		if up.mode == 'p' {
+			// label only: the scripted handler panicked, the reply is the recovery middleware's
+			return fail("reply/panic-servfail/opt-unsolicited", "entry="+e)
+		}
 		return fail(e+"/opt/unsolicited", "")
 	}
 	if nopt > 1 {
@@ -287,6 +300,9 @@ func judgeHinted(entry string, ek entryKind, d deploy, query []byte, reply []byt
 			}
 			switch o.code {
 			case optECS:
+				if up.mode == 'p' {
+					return fail("reply/panic-servfail/client-ecs-reflected", fmt.Sprintf("entry=%s %x", e, o.data))
+				}
 				if rm.Rcode == dns.RcodeBadVers && v.hasOPT && v.ver != 0 {
 					return fail("reply/badvers/client-ecs-reflected", fmt.Sprintf("entry=%s %x", e, o.data))
 				}
